@@ -51,6 +51,8 @@ Section Proofs.
   Notation save_step := (save_step D P empty rd wr g sh).
   Notation save_todo := (save_todo D P g sh).
   Notation save := (save D P empty rd wr g sh).
+  Notation save_step_a := (save_step_a D P empty rd wr g sh).
+  Notation save_a := (save_a D P empty rd wr g sh).
   Notation denote := (denote D P rd g).
   Notation fresh := (fresh D P).
   Notation owned := (owned g).
@@ -68,6 +70,66 @@ Section Proofs.
 
   Lemma save_fresh_id : forall s : state, fresh s -> save s = (true, s).
   Proof. intros s Hf. unfold save, LazyLumps.save. now apply save_steps_fresh. Qed.
+
+  (** BSP.save with an except clause around the writer call ([save_a], round 5) differs from the plain loop only in the
+      state it leaves behind when a writer raises. *)
+  Lemma save_step_a_flag : forall b acc k, fst (save_step_a b acc k) = fst (save_step acc k).
+  Proof.
+    intros b [f s] k. unfold LazyLumps.save_step_a, LazyLumps.save_step. cbn [fst snd].
+    destruct f; [|reflexivity]. destruct (cache s k); [|reflexivity].
+    destruct (look_all get (v_wdeps (decl k)) (set_cache k None s)) as [b2 s2]. cbn [fst snd]. destruct b2; reflexivity.
+  Qed.
+
+  Lemma save_step_a_true : forall b acc k, fst (save_step acc k) = true -> save_step_a b acc k = save_step acc k.
+  Proof.
+    intros b [f s] k. unfold LazyLumps.save_step_a, LazyLumps.save_step. cbn [fst snd].
+    destruct f; [|reflexivity]. destruct (cache s k); [|reflexivity].
+    destruct (look_all get (v_wdeps (decl k)) (set_cache k None s)) as [b2 s2]. cbn [fst snd]. destruct b2; [reflexivity | discriminate].
+  Qed.
+
+  Lemma save_step_a_false_eq : forall acc k, save_step_a false acc k = save_step acc k.
+  Proof.
+    intros [f s] k. unfold LazyLumps.save_step_a, LazyLumps.save_step. cbn [fst snd].
+    destruct f; [|reflexivity]. destruct (cache s k); [|reflexivity].
+    destruct (look_all get (v_wdeps (decl k)) (set_cache k None s)) as [b2 s2]. cbn [fst snd]. destruct b2; reflexivity.
+  Qed.
+
+  Lemma save_step_a_stopped : forall b acc k, fst acc = false -> save_step_a b acc k = acc.
+  Proof. intros b [f s] k H. cbn [fst] in H. subst f. reflexivity. Qed.
+
+  Lemma save_step_stopped : forall acc k, fst acc = false -> save_step acc k = acc.
+  Proof. intros [f s] k H. cbn [fst] in H. subst f. reflexivity. Qed.
+
+  Lemma save_steps_a_rel : forall b l acc acc', fst acc = fst acc' -> (fst acc' = true -> acc = acc') ->
+    let r := fold_left (save_step_a b) l acc in let r' := fold_left save_step l acc' in
+    fst r = fst r' /\ (fst r' = true -> r = r').
+  Proof.
+    intros b. induction l as [|a l IH]; intros acc acc' Hf He; cbn [fold_left]; [split; assumption|].
+    apply IH.
+    - destruct (fst acc') eqn:E.
+      + rewrite (He eq_refl). apply save_step_a_flag.
+      + rewrite (save_step_a_stopped b acc a Hf), (save_step_stopped acc' a E). congruence.
+    - intros Ht. destruct (fst acc') eqn:E.
+      + rewrite (He eq_refl). now apply save_step_a_true.
+      + rewrite (save_step_stopped acc' a E) in Ht. congruence.
+  Qed.
+
+  (** Whether the save completes does not depend on the except clause, and a save that completes is the plain save. *)
+  Lemma save_a_like_save : forall b s, fst (save_a b s) = fst (save s) /\ (fst (save s) = true -> save_a b s = save s).
+  Proof.
+    intros b s. unfold LazyLumps.save_a, LazyLumps.save.
+    exact (save_steps_a_rel b (save_todo s) (true, s) (true, s) eq_refl (fun _ => eq_refl)).
+  Qed.
+
+  Lemma save_a_false_is_save : forall s, save_a false s = save s.
+  Proof.
+    intros s. unfold LazyLumps.save_a, LazyLumps.save. generalize (true, s). induction (save_todo s) as [|a l IH]; intros acc; cbn [fold_left]; [reflexivity|].
+    rewrite save_step_a_false_eq. apply IH.
+  Qed.
+
+  Lemma save_a_summary : forall b s, fst (save_a b s) = fst (save s) /\ (fst (save s) = true -> save_a b s = save s) /\
+    save_a false s = save s.
+  Proof. intros b s. destruct (save_a_like_save b s) as [A B]. split; [exact A | split; [exact B | apply save_a_false_is_save]]. Qed.
 
   Lemma own_overflow : forall v, nviews <= v -> own v = [].
   Proof. intros v H. unfold LazyLumps.own, LazyLumps.decl. rewrite nth_overflow; [reflexivity | exact H]. Qed.
@@ -398,6 +460,92 @@ Section Proofs.
         destruct (save_steps_inv nviews 0 (true, s) ltac:(lia) (fun _ => HI)) as [H1 H2]. cbv zeta in H1, H2.
         split; [exact H1 | intros Hwg; now apply H2].
       Qed.
+
+      (** An aborted save with the except clause ([restore = true]): the step that raises leaves the invariant of its own
+          position intact (the popped view is cached again, the views looked at meanwhile are cached, nothing else moved). *)
+      Lemma save_step_a_inv : forall k acc, k < nviews -> fst acc = true -> Inv k k (snd acc) ->
+        let r := save_step_a true acc k in
+        (fst r = true -> Inv (S k) (S k) (snd r)) /\ (fst r = false -> Inv k k (snd r)).
+      Proof.
+        intros k [b s] Hk Hb HI. cbn [fst snd] in Hb, HI. subst b. cbv zeta. split.
+        - intros Ht. rewrite save_step_a_flag in Ht. rewrite (save_step_a_true true (true, s) k Ht).
+          exact (proj1 (save_step_inv k (true, s) Hk (fun _ => HI)) Ht).
+        - unfold LazyLumps.save_step_a. cbn [fst snd].
+          destruct HI as (Ha & Hb & Hc & Hd).
+          destruct (cache s k) as [p|] eqn:Ec; [|cbn [fst]; discriminate].
+          assert (HRk : R k /\ good k /\ pv k = Some p).
+          { destruct (Hc k (le_n k) Hk) as [[Hn _]|(HR & Hg & Hs)]; [congruence|]. split; [exact HR | split; [exact Hg | congruence]]. }
+          destruct HRk as (HRk & Hgk & Hpk).
+          set (s1 := set_cache k None s).
+          assert (HI1 : Inv k (S k) s1).
+          { split; [|split; [|split; [|exact Hd]]].
+            - intros v Hv. unfold s1, LazyLumps.set_cache, upd. cbn [cache].
+              destruct (Nat.eqb v k) eqn:E; [reflexivity | auto].
+            - intros v Hv. destruct (Hb v Hv) as [A B]. split; [|exact B].
+              unfold s1, LazyLumps.set_cache, upd. cbn [cache]. destruct (Nat.eqb v k); [reflexivity | exact A].
+            - intros v Hv Hvn. unfold s1, LazyLumps.set_cache, upd. cbn [cache].
+              destruct (Nat.eqb v k) eqn:E; [apply Nat.eqb_eq in E; lia|]. apply (Hc v ltac:(lia) Hvn). }
+          assert (Hwd : forall d, In d (v_wdeps (decl k)) -> k < d /\ d < nviews).
+          { intros d Hd'. apply (deps_gt k d Hk). apply in_or_app; auto. }
+          assert (Hlook : forall d s', In d (v_wdeps (decl k)) -> Inv k (S k) s' -> get_post k (S k) d s' (get d s')).
+          { intros d s' Hd' HI'. assert (Hin : In d (v_rdeps (decl k) ++ v_wdeps (decl k))) by (apply in_or_app; auto).
+            destruct (deps_gt k d Hk Hin). unfold LazyLumps.get.
+            apply get_spec; [lia | exact HI' | lia | exact (Rclosed k d Hk HRk Hin) | lia]. }
+          pose proof (look_all_spec get k (S k) k (v_wdeps (decl k)) Hlook Hwd s1 HI1) as Hfold. cbv zeta in Hfold.
+          destruct (look_all get (v_wdeps (decl k)) s1) as [b2 s2] eqn:El. cbn [fst snd] in *.
+          destruct Hfold as ((Ha2 & Hb2 & Hc2 & Hd2) & Hfr2 & _).
+          destruct b2; cbn [fst snd]; [discriminate|]. intros _.
+          split; [|split; [|split]].
+          + intros v Hv. unfold LazyLumps.set_cache, upd. cbn [cache].
+            destruct (Nat.eqb v k) eqn:E; [apply Nat.eqb_eq in E; lia | auto].
+          + intros v Hv. destruct (Hb2 v Hv) as [A B]. split; [|exact B].
+            unfold LazyLumps.set_cache, upd. cbn [cache]. destruct (Nat.eqb v k) eqn:E; [apply Nat.eqb_eq in E; lia | exact A].
+          + intros v Hv Hvn. destruct (Nat.eq_dec v k) as [->|Hne].
+            * right. split; [exact HRk|]. split; [exact Hgk|].
+              unfold LazyLumps.set_cache, upd. cbn [cache]. rewrite Nat.eqb_refl. now rewrite Hpk.
+            * unfold LazyLumps.set_cache, upd. cbn [cache]. destruct (Nat.eqb v k) eqn:E; [apply Nat.eqb_eq in E; contradiction|].
+              exact (Hc2 v ltac:(lia) Hvn).
+          + exact Hd2.
+      Qed.
+
+      Lemma save_steps_a_inv : forall m k acc, k + m = nviews -> (fst acc = true -> Inv k k (snd acc)) ->
+        (fst acc = false -> exists j, j <= nviews /\ Inv j j (snd acc)) ->
+        let r := fold_left (save_step_a true) (seq k m) acc in
+        exists j, j <= nviews /\ Inv j j (snd r) /\ (fst r = true -> j = nviews).
+      Proof.
+        induction m as [|m IH]; intros k acc Hkm Ht Hf; cbn [seq fold_left].
+        - destruct (fst acc) eqn:E.
+          + exists k. split; [lia|]. split; [now apply Ht | intros _; lia].
+          + destruct (Hf eq_refl) as (j & Hj & HI). exists j. split; [exact Hj|]. split; [exact HI | discriminate].
+        - apply IH; [lia| |].
+          + intros Hs. destruct (fst acc) eqn:E.
+            * exact (proj1 (save_step_a_inv k acc ltac:(lia) E (Ht eq_refl)) Hs).
+            * rewrite (save_step_a_stopped true acc k E) in Hs. congruence.
+          + intros Hs. destruct (fst acc) eqn:E.
+            * exists k. split; [lia|]. exact (proj2 (save_step_a_inv k acc ltac:(lia) E (Ht eq_refl)) Hs).
+            * rewrite (save_step_a_stopped true acc k E). exact (Hf eq_refl).
+      Qed.
+
+      Lemma save_a_inv : forall s, Inv 0 0 s ->
+        exists j, j <= nviews /\ Inv j j (snd (save_a true s)) /\ (fst (save_a true s) = true -> j = nviews).
+      Proof.
+        intros s HI. unfold LazyLumps.save_a. rewrite save_todo_std.
+        exact (save_steps_a_inv nviews 0 (true, s) ltac:(lia) (fun _ => HI) ltac:(discriminate)).
+      Qed.
+
+      (** What the object denotes in a state where the views below [j] have been saved and the others are untouched or cached. *)
+      Lemma inv_mid_denote : forall j s, Inv j j s ->
+        (forall v p, v < nviews -> pv v = Some p -> rd v (wr v p) = Some p) ->
+        forall v, v < nviews -> denote s v = pv v.
+      Proof.
+        intros j s (_ & Hb & Hc & _) Hcodec v Hv. unfold LazyLumps.denote.
+        destruct (Nat.lt_ge_cases v j) as [Hlt|Hge].
+        - destruct (Hb v Hlt) as [Hn [Ho|(_ & p & Hp & Ho)]]; rewrite Hn, Ho; [reflexivity|].
+          rewrite Hp. now apply Hcodec.
+        - destruct (Hc v Hge Hv) as [[Hn Ho]|(_ & Hg & Hs)].
+          + rewrite Hn. unfold pv. now rewrite Ho.
+          + apply good_pv in Hg. rewrite Hs. destruct (pv v); [reflexivity | contradiction].
+      Qed.
     End Run.
 
     (** ------------------------------------------------------------------ exported statements *)
@@ -556,6 +704,20 @@ Section Proofs.
       destruct (H1 Ht) as (Ha & Hb & _ & _).
       intros v. destruct (Nat.lt_ge_cases v nviews) as [Hv|Hv]; [apply Hb, Hv | apply Ha, Hv].
     Qed.
+
+    (** A save that raises half-way (a writer looks at a view that cannot be parsed), with the except clause that puts the
+        popped view back: whether or not it completes, the object afterwards denotes for every view what the file held, and
+        lumps without a view are untouched.  (The caller can carry on: nothing the property can observe was lost.) *)
+    Theorem aborted_save_keeps_content : forall s0 accs, fresh s0 -> wr_len_ok s0 -> codec_ok s0 ->
+      let r := save_a true (run accs s0) in
+      (forall v, v < nviews -> denote (snd r) v = rd v (own_data s0 v)) /\ (forall l, ~ owned l -> raw (snd r) l = raw s0 l).
+    Proof.
+      intros s0 accs Hf Hlen Hcodec r.
+      destruct (save_a_inv s0 (fun _ => True) closed_all Hlen (run accs s0) (inv_run_all s0 accs Hf)) as (j & Hj & HI & _).
+      fold r in HI. split.
+      - intros v Hv. exact (inv_mid_denote s0 (fun _ => True) j (snd r) HI (fun v p Hv' Hp => Hcodec v p Hv' Hp) v Hv).
+      - destruct HI as (_ & _ & _ & Hd). exact Hd.
+    Qed.
   End Consistent.
 End Proofs.
 
@@ -666,4 +828,20 @@ Example snapshot_save_refuted :
   order_consistent g_wdep = true /\ shape_ok sh = false /\ raw ex_s0 1 = 2 /\
   fst r = true /\ raw (snd r) 1 = 0 /\ cache (snd r) 1 = Some [2] /\
   raw (snd (ex_save g_wdep std_shape (ex_run g_wdep std_shape [0] ex_s0))) 1 = 2.
+Proof. vm_compute. repeat split; reflexivity. Qed.
+
+(** BSP.save without the except clause (round 5: the pinned tree before the fix): the writer of view 0 looks at view 1, whose
+    lumps are malformed ([ex_bad]); the reader of view 0 does not.  Looking at view 0 succeeds (lump 0 is cleared, the value
+    cached); save pops view 0, its writer raises, the popped value is gone; the caller carries on and saves again: that save
+    completes and lump 0 is written empty.  With the except clause the view is cached again, the second save raises like
+    the first and the object still denotes the file's content. *)
+Definition g_wabort : graph := [ mkV [0] [] [1] [0]; mkV [2; 3] [] [] [2; 3] ].
+Notation ex_save_a g sh b := (save_a nat (list nat) 0 ex_rd ex_wr g sh b).
+Example aborted_save_drops_view_refuted :
+  let s := ex_run g_wabort std_shape [0] ex_bad in
+  let r := ex_save_a g_wabort std_shape false s in let r2 := ex_save_a g_wabort std_shape false (snd r) in
+  let q := ex_save_a g_wabort std_shape true s in let q2 := ex_save_a g_wabort std_shape true (snd q) in
+  order_consistent g_wabort = true /\ raw ex_bad 0 = 1 /\ cache s 0 = Some [1] /\
+  fst r = false /\ cache (snd r) 0 = None /\ raw (snd r) 0 = 0 /\ fst r2 = true /\ raw (snd r2) 0 = 0 /\
+  fst q = false /\ cache (snd q) 0 = Some [1] /\ fst q2 = false /\ cache (snd q2) 0 = Some [1].
 Proof. vm_compute. repeat split; reflexivity. Qed.
